@@ -67,3 +67,23 @@ pub fn c04_tag_after_attr(inp: &mut Inp) {
     assert!(c == 1, "a byte outside both tag ranges is rejected, not skipped");
     reached();
 }
+
+//@ {"tier":"quick","unwind":4,"stubs":["lossy_ascii","drop_even","drop_odd","bm","block_on","reserve","fmt"],"desc":"C02 corpus 'every string of up to 3 bytes after a valid header', 2-byte slice: ALL 65536 two-byte strings after ANY header through the blocking parser: never a panic; Ok exactly when the first byte is the end tag, or a group delimiter followed by the end tag; otherwise InvalidTag (carrying the first offending byte) or UnexpectedEof","sym":"8 header bytes, 2 following bytes (all 65536)"}
+pub fn c02_two_bytes_after_header(inp: &mut Inp) {
+    let t1 = inp.u8();
+    let t2 = inp.u8();
+    let w = wire(inp, &[], t1, &[t2]);
+    let r = IppParser::new(IppReader::new(Cursor::new(w))).parse();
+    let d1 = t1 >= 0x01 && t1 <= 0x05;
+    let v1 = t1 >= 0x10 && t1 <= 0x4a;
+    let d2 = t2 >= 0x01 && t2 <= 0x05;
+    let v2 = t2 >= 0x10 && t2 <= 0x4a;
+    match &r {
+        Ok(_) => assert!(t1 == 0x03 || (d1 && t2 == 0x03), "accepted only when properly terminated"),
+        Err(IppParseError::InvalidTag(x)) => assert!((!d1 && !v1 && *x == t1) || (d1 && !d2 && !v2 && *x == t2)),
+        Err(IppParseError::IoError(_)) => assert!(v1 || (d1 && t1 != 0x03 && (v2 || (d2 && t2 != 0x03)))),
+        Err(_) => assert!(false, "no other error is possible on two bytes"),
+    }
+    core::mem::forget(r);
+    reached();
+}
